@@ -167,6 +167,39 @@ def scrape_lexer(repo):
     return simple, special, kws
 
 
+def scrape_cli(repo):
+    """main.rs: the option table (optflag calls, in order), the early exits, the (flag, RunOptions setter)
+    pairs in the order main_real applies them, and the default timeout.  None if main.rs cannot be read this way."""
+    try:
+        text = open(os.path.join(repo, "src", "main.rs")).read()
+    except OSError:
+        return None
+    m = re.search(r"fn main_real\(\).*?\n\}\n", text, re.S)
+    if not m:
+        return None
+    body = m.group(0)
+    decls = re.findall(r"^\s*opts\.(\w+)\((.*)\);$", body, re.M)
+    if len(decls) != len(re.findall(r"\bopts\.opt", body)):
+        return None
+    flags = []
+    for kind, args in decls:
+        if kind == "parse":
+            continue
+        a = re.fullmatch(r'\s*"([^"]*)"\s*,\s*"([^"]*)"\s*,\s*"[^"]*"\s*', args)
+        if kind != "optflag" or not a:
+            return None
+        flags.append((a.group(1), a.group(2)))
+    early = re.findall(r'if parsed_opts\.opt_present\("([^"]+)"\) \{\n(?:[^{}]|\{[^{}]*\})*?return Ok\(true\);\n\s*\}', body)
+    effects = re.findall(r'if parsed_opts\.opt_present\("([^"]+)"\) \{\n\s*run_options\.(\w+)\([^;]*\);\n\s*\}', body)
+    others = re.findall(r'let (\w+) = parsed_opts\.opt_present\("([^"]+)"\);', body)
+    n_present = len(re.findall(r'opt_present\(', body))
+    if n_present != len(early) + len(effects) + len(others):
+        return None
+    m = re.search(r"\} else \{\n\s*(\d+)\n\s*\};\n\s*run_options\.set_timeout\(timeout\);", body)
+    if not m:
+        return None
+    return flags, early, effects, others, int(m.group(1))
+
 def translate(tables_text, repo):
     pre = b""
     fixed = []
@@ -248,5 +281,24 @@ def translate(tables_text, repo):
             "(%d, %s, [%s])" % (ord(c), qs(t), "; ".join("(%d, %s)" % (ord(d), qs(t2)) for d, t2 in alts)) for c, t, alts in simple))
         out.append("Definition gen_lex_special : option (list N) := Some [%s]." % "; ".join(str(ord(c)) for c in special))
         out.append("Definition gen_keywords : option (list (string * string)) := Some [%s]." % "; ".join("(%s, %s)" % (qs(w), qs(t)) for w, t in kws))
+    out.append("")
+    cl = scrape_cli(repo)
+    out.append("(* main.rs, main_real: the optflag table (short name, long name) in order; the options that end the")
+    out.append("   program at once, in the order tested; (option, RunOptions setter) in the order applied; the options")
+    out.append("   read into a variable; the timeout used when the third argument is absent *)")
+    if cl is None:
+        out.append("Definition gen_cli_flags : option (list (string * string)) := None.")
+        out.append("Definition gen_cli_early : option (list string) := None.")
+        out.append("Definition gen_cli_effects : option (list (string * string)) := None.")
+        out.append("Definition gen_cli_others : option (list (string * string)) := None.")
+        out.append("Definition gen_cli_default_timeout : option N := None.")
+    else:
+        flags, early, effects, others, dflt = cl
+        pairs = lambda l: "; ".join("(%s, %s)" % (qs(a), qs(b)) for a, b in l)
+        out.append("Definition gen_cli_flags : option (list (string * string)) := Some [%s]." % pairs(flags))
+        out.append("Definition gen_cli_early : option (list string) := Some [%s]." % "; ".join(qs(x) for x in early))
+        out.append("Definition gen_cli_effects : option (list (string * string)) := Some [%s]." % pairs(effects))
+        out.append("Definition gen_cli_others : option (list (string * string)) := Some [%s]." % pairs(others))
+        out.append("Definition gen_cli_default_timeout : option N := Some %d." % dflt)
     out.append("")
     return "\n".join(out)
